@@ -37,9 +37,11 @@ def variants(rng, samples, k):
 def correspondence(ctx, batch):
     rng = ctx.rng("corr")
     registry = stages.make_registry()
-    for _ in range(ctx.n(80, 1500)):
+    for i in range(ctx.n(80, 1500)):
         samples = gen.gen_sample_family(rng) if rng.random() < .7 else gen.gen_samples(rng)
         cmps = common.cmps_choice(rng)
+        if i % 8 == 0:
+            samples, cmps = gen.gen_chain_samples(rng), []
         for v in [samples] + variants(rng, samples, 3):
             stages.stage_generate(batch, v, registry)
             if rng.random() < 0.4:
@@ -99,6 +101,8 @@ def falsify(ctx):
         r = rng.random()
         samples = gen.gen_sample_family(rng) if r < .6 else gen.gen_shared_samples(rng) if r < .8 else gen.gen_samples(rng)
         cmps = common.cmps_choice(rng)
+        if r > .92:
+            samples, cmps = gen.gen_chain_samples(rng), []
         vs = variants(rng, samples, ctx.n(4, 24))
         try:
             hit = check_case(samples, vs, cmps, registry)
